@@ -294,7 +294,7 @@ def gen_params(rnd, nmax=4):
     return n, opts
 
 
-def run_schedule(seed, rec, nmax=4, max_ticks=40, faults_max=10, quiet_ticks=0, sim_cls=RecSim, allow_restart=True, mismatch=0.0, inject=False, sim_cls_name=None, heal_at_end=False, rpc_names=('restart', 'shutdown', 'end_sync', 'end_sync'), procs=False, pev_rate=0.25):
+def run_schedule(seed, rec, nmax=4, max_ticks=40, faults_max=10, quiet_ticks=0, sim_cls=RecSim, allow_restart=True, mismatch=0.0, inject=False, sim_cls_name=None, heal_at_end=False, rpc_names=('restart', 'shutdown', 'end_sync', 'end_sync'), procs=False, pev_rate=0.25, split_start=0.0):
     """ one generated cluster schedule; returns (sims, net, opts, n, info) """
     rnd = random.Random(seed)
     if sim_cls_name:
@@ -306,6 +306,11 @@ def run_schedule(seed, rec, nmax=4, max_ticks=40, faults_max=10, quiet_ticks=0, 
                 continue
             if hasattr(mod, sim_cls_name): sim_cls = getattr(mod, sim_cls_name); break
     n, opts = gen_params(rnd, nmax)
+    do_split = bool(split_start) and n >= 3 and rnd.random() < split_start
+    if do_split and rnd.random() < 0.6:
+        # make the two halves productive: each can synchronize on its own and does not fence the other
+        opts['synchro_options'] = rnd.choice(['TIMEOUT', 'TIMEOUT,CORE']); opts['auto_fence'] = 'false'
+        opts['supvisors_failure_strategy'] = rnd.choice(['CONTINUE', 'RESYNC'])
     if procs and opts['supvisors_failure_strategy'] == 'SHUTDOWN':
         # the ending phase stops the running processes through the Stopper, which the cluster model does not contain
         opts['supvisors_failure_strategy'] = 'CONTINUE'
@@ -338,6 +343,15 @@ def run_schedule(seed, rec, nmax=4, max_ticks=40, faults_max=10, quiet_ticks=0, 
     fault_times = sorted(rnd.randint(lo, hi) for _ in range(faults)) if hi > lo else []
     info = {'faults': [], 'end_faults': end_faults, 'per': per, 'programs': (nproc, known) if procs else None}
     healed = False
+    if do_split:
+        # split-brain start: the cluster boots in two halves that cannot see each other (each may elect its own Master), healed later
+        half = set(rnd.sample(range(n), rnd.randint(1, n - 1)))
+        for a_ in range(n):
+            for b_ in range(a_ + 1, n):
+                if (a_ in half) != (b_ in half):
+                    net.cut.add(frozenset((sims[a_].identifier, sims[b_].identifier))); rec.rec(sims, f'cut {a_} {b_}')
+        fault_times = sorted(fault_times + [rnd.randint(T[0] + 8 * PERIOD, max(T[0] + 9 * PERIOD, end_faults - 2 * PERIOD))])
+        info['faults'].append('split-start'); info['split_heal'] = True
     while T[0] < end:
         T[0] += rnd.randint(1, 40)
         if heal_at_end and not healed and T[0] >= end_faults:
@@ -346,6 +360,7 @@ def run_schedule(seed, rec, nmax=4, max_ticks=40, faults_max=10, quiet_ticks=0, 
         while fault_times and fault_times[0] <= T[0]:
             fault_times.pop(0)
             kind = rnd.choice(['crash', 'cut', 'heal', 'hold', 'rpc', 'restart'] + (['inject'] * 4 if inject else []))
+            if info.pop('split_heal', False) and rnd.random() < 0.7: kind = 'heal'      # the halves usually meet again before anything else happens
             s = rnd.choice(sims)
             if kind == 'inject' and s.identifier not in net.down and s.history:
                 typ, data = rnd.choice(s.history[-40:])
